@@ -27,10 +27,13 @@ def ruse(dst, reg): return {"op": "use", "dst": dst, "reg": reg}       # __file_
 def rclose(reg): return {"op": "close", "dst": 8, "reg": reg}          # __file_close__
 
 def aw(reg): return {"k": "await", "reg": reg}
-def recv(tys=("int",), acc=None, body="pure"):
+def recv(tys=("int",), acc=None, body="pure", reg=None):
     # (a builtin used as a receive source has no body: it only names the message type and is never applied)
-    return {"k": "recv", "tys": list(tys), "filt": acc is not None or body not in ("pure", "builtin"),
-            "acc": list(acc or []), "body": body}
+    # body "effect_read": the filter reads one byte from the resource in register `reg` (a heap binary comes back)
+    s = {"k": "recv", "tys": list(tys), "filt": acc is not None or body not in ("pure", "builtin"),
+         "acc": list(acc or []), "body": body}
+    if reg is not None: s["reg"] = reg
+    return s
 def tmo(d): return {"k": "timeout", "d": d}
 # a "never" sentinel: a duration beyond 64 bits in the program, the largest 32-bit value in the model and in the traces
 def tmo_huge(): return {"k": "timeout", "d": 2147483647, "huge": True}
@@ -83,6 +86,7 @@ class Renderer:
         if s["body"] == "send": return "#%s { 0 s%dr1, Ok }" % (ty, sid)
         if s["body"] == "fail": return "#%s { [1, 0] __integer_divide__, Ok }" % ty
         if s["body"] == "effect": return "#%s { [0x2f78, 0, 0] __file_open__, Ok }" % ty    # an effect builtin inside the filter
+        if s["body"] == "effect_read": return "#%s { [&s%dr%d, 0, 1] __file_read__, Ok }" % (ty, sid, s["reg"])
         if s["body"] == "effect_fail": return "#%s { [0x2178, 0, 0] __file_open__, Ok }" % ty   # ... whose operation fails ('!x')
         if s["body"] == "builtin": return "&__integer_add__"
         branches = " ".join("| =%s => Ok" % q_val(v) for v in s["acc"]) or "| []"
